@@ -116,6 +116,8 @@ class Driver:
         if 'replyTimeoutMs' in self.cfg:
             limits['reply_timeout'] = self.cfg['replyTimeoutMs']
         kw = dict(daemon_kw or {})
+        if 'maxIncomplete' in self.cfg:
+            limits['max_incomplete_connections'] = self.cfg['maxIncomplete']
         if 'maxOutgoing' in self.cfg:
             limits['max_outgoing_bytes'] = self.cfg['maxOutgoing']
         if self.cfg['maxMsgSize'] != 33554432:
